@@ -1,0 +1,7 @@
+//go:build !verif
+
+// Package verifgate provides named yield points for deterministic schedule replay (verification builds only).
+package verifgate
+
+// At is a no-op unless built with the verif tag.
+func At(point string, who string) {}
